@@ -135,18 +135,55 @@ def rule_serial(ctx):
     ctx.ob(R, f"{CH}::SplineCharacteristic.__call__::through-getter", rets == ["self.interpolator(x)"], f"returns {rets}", f"{mod.relpath}:{call.lineno}")
 
 
+def rule_setter_once(ctx):
+    R = "LOG-PAIR"
+    m = ctx.repo.module(CH)
+    transforming = {}
+    for ci in m.classes.values():
+        for f in ci.node.body:
+            if isinstance(f, ast.FunctionDef) and any(isinstance(d, ast.Attribute) and d.attr == "setter" for d in f.decorator_list):
+                prm = f.args.args[1].arg if len(f.args.args) > 1 else None
+                for st in ast.walk(f):
+                    if isinstance(st, ast.Assign) and isinstance(st.targets[0], ast.Attribute) and not (isinstance(st.value, ast.Name) and st.value.id == prm):
+                        transforming[f.name] = ci.name
+    if len(transforming) < 2:
+        ctx.fail(f"characteristic: transforming property setters found for {sorted(transforming)} only (confirmed: x_vals, y_vals)")
+    n = 0
+    for ci in m.classes.values():
+        for fi in ci.methods.values():
+            if any(isinstance(d, ast.Attribute) and d.attr == "setter" for d in fi.node.decorator_list):
+                continue
+            for st in ast.walk(fi.node):
+                if isinstance(st, (ast.Assign, ast.AugAssign)):
+                    tg = st.targets[0] if isinstance(st, ast.Assign) else st.target
+                    if isinstance(tg, ast.Attribute) and isinstance(tg.value, ast.Name) and tg.value.id == "self" and tg.attr in transforming:
+                        n += 1
+                        rmw = isinstance(st, ast.AugAssign) or any(
+                            isinstance(x, ast.Attribute) and isinstance(x.value, ast.Name) and x.value.id == "self" and x.attr == tg.attr
+                            for x in ast.walk(st.value))
+                        ctx.ob(R, f"{CH}::{fi.qualname}::self.{tg.attr}-assigned-once", not rmw,
+                               f"self.{tg.attr} is assigned from the caller's values" if not rmw else
+                               f"`{_n(st, 80)}` writes self.{tg.attr} from its own value: in {transforming[tg.attr]} the getter returns the "
+                               "log-transformed values and the setter takes the logarithm again, the curve no longer passes through the "
+                               "given points", fi.loc(st))
+    if n < 2:
+        ctx.fail(f"characteristic: only {n} assignments to x_vals / y_vals found outside the setters (confirmed: Characteristic.__init__)")
+
+
 def run(ctx):
     ctx.assume("decides argument order, transform pairing and the serialisation bookkeeping of the characteristic classes; the "
                "interpolation property of the scipy objects on run-time data is not decided")
     rule_args(ctx)
     rule_log(ctx)
     rule_serial(ctx)
+    rule_setter_once(ctx)
 
 
 def variants(repo):
     p = "pandapower/control/util/characteristic.py"
     V = Variant
     return [
+        V("series support values converted in place", p, (lambda s: s.replace("        self.kwargs = kwargs\n        self.interpolator_kind = interpolator_kind\n", "        if hasattr(self.x_vals, 'to_numpy'):\n            self.x_vals = self.x_vals.to_numpy()\n        self.kwargs = kwargs\n        self.interpolator_kind = interpolator_kind\n", 1)), "assigned-once"),
         V("interp arguments swapped", p, replace_once("return interp(x, self.x_vals, self.y_vals)", "return interp(x, self.y_vals, self.x_vals)"), "Characteristic.__call__"),
         V("pchip arguments swapped", p, replace_once("PchipInterpolator(self.x_vals, self.y_vals, **self.kwargs)", "PchipInterpolator(self.y_vals, self.x_vals, **self.kwargs)"), "PchipInterpolator"),
         V("interp1d kwargs dropped", p, replace_once("default_interp1d(self.x_vals, self.y_vals, **self.kwargs)", "default_interp1d(self.x_vals, self.y_vals)"), "default_interp1d"),
